@@ -4,6 +4,8 @@ import (
 	"encoding/base64"
 	"encoding/json"
 	"math/rand"
+	"net/http"
+	"net/http/httptest"
 	"reflect"
 	"strings"
 	"time"
@@ -174,6 +176,52 @@ func aeadRun(c aeadCase, k1, k2 *aead.MiscreantCipher) M {
 		"variants": variants, "repeatN": c.Repeat + 2, "repeatDistinct": len(seen), "raw": c}
 }
 
+// aeadStores: two cookie stores of one process with different secrets. A cookie saved by one opens in that store and
+// never in the other — whichever store sees it first, however often.
+func aeadStores() M {
+	mk := func(fill byte) *sessions.CookieStore {
+		sec := make([]byte, 32)
+		for i := range sec {
+			sec[i] = fill + byte(i)
+		}
+		st, err := sessions.NewCookieStore("_sso_proxy", sessions.CreateMiscreantCookieCipher(sec))
+		if err != nil {
+			panic(err)
+		}
+		return st
+	}
+	A, B := mk(1), mk(101)
+	save := func(st *sessions.CookieStore) string {
+		rec := httptest.NewRecorder()
+		req := httptest.NewRequest("GET", "http://app.x.io/", nil)
+		if err := st.SaveSession(rec, req, &sessions.SessionState{Email: "ann@x.io", AccessToken: "at", LifetimeDeadline: time.Now().Add(time.Hour)}); err != nil {
+			panic(err)
+		}
+		for _, c := range rec.Result().Cookies() {
+			if c.Name == "_sso_proxy" {
+				return c.Value
+			}
+		}
+		return ""
+	}
+	load := func(st *sessions.CookieStore, v string) bool {
+		req := httptest.NewRequest("GET", "http://app.x.io/", nil)
+		req.AddCookie(&http.Cookie{Name: "_sso_proxy", Value: v})
+		ss, err := st.LoadSession(req)
+		return err == nil && ss != nil
+	}
+	v1, v2 := save(A), save(A)
+	var obs []M
+	// own store first, then the other one, repeatedly; and the other order with a second cookie
+	for i := 0; i < 3; i++ {
+		obs = append(obs, M{"cookie": 1, "order": "own-first", "own": load(A, v1), "other": load(B, v1)})
+	}
+	for i := 0; i < 3; i++ {
+		obs = append(obs, M{"cookie": 2, "order": "other-first", "other": load(B, v2), "own": load(A, v2)})
+	}
+	return M{"kind": "stores", "stores": obs, "genuine": []string{}, "variants": []M{}, "openOtherKey": "err", "raw": aeadCase{Kind: "stores"}}
+}
+
 func mustDec(s string) []byte {
 	b, err := base64.RawURLEncoding.DecodeString(s)
 	if err != nil {
@@ -222,7 +270,12 @@ func init() {
 		aeadHalfKey = k3
 		idx := 0
 		emit := func(c aeadCase) {
-			o := aeadRun(c, k1, k2)
+			var o M
+			if c.Kind == "stores" {
+				o = aeadStores()
+			} else {
+				o = aeadRun(c, k1, k2)
+			}
 			o["e"] = "aead"
 			o["case"] = idx
 			em.Emit(o)
@@ -240,6 +293,7 @@ func init() {
 		}
 		t0 := time.Unix(1700000000, 0).UTC()
 		emit(aeadCase{Kind: "state", State: &aeadState{SessionID: "0123456789abcdef", RedirectURI: "/"}, Full: true, Seed: 1, Repeat: 1200})
+		emit(aeadCase{Kind: "stores"})
 		emit(aeadCase{Kind: "session", Sess: &sessions.SessionState{ProviderSlug: "idp", ProviderType: "sso", AccessToken: "at", RefreshToken: "rt",
 			RefreshDeadline: t0.Add(time.Hour), LifetimeDeadline: t0.Add(24 * time.Hour), ValidDeadline: t0.Add(time.Minute),
 			Email: "a@example.com", User: "a", Groups: []string{"g1", "g2"}, AuthorizedUpstream: "app.example.com"}, Full: true, Seed: 2})
